@@ -370,14 +370,15 @@ bool tablelib_write(const Plan &p, RunResult &res, const std::string &path, Tabl
 		res.sched_hash = st.choices_hash; res.steps += st.steps; res.abs_states += st.abs_states;
 		res.ev.u(st.choices_hash);
 		if (st.unjoined) res.fail("SCHED", "THREAD-LEAK", std::to_string(st.unjoined) + " pool threads still alive after threadpool_destroy");
-		if (pool > 0 && st.routine_max_live[1] > (uint32_t)pool)
-			res.fail("SCHED", "WORKER-COUNT", std::to_string(st.routine_max_live[1]) + " workers alive with max " + std::to_string(pool));
+		PoolThreads pt = pool_threads(st);
+		if (!pt.named) res.probes["start-routine-names-unknown"]++;
+		if (pool > 0) { std::string wb = worker_bound_broken(st, (uint32_t)pool, 0, 1); if (!wb.empty()) res.fail("SCHED", "WORKER-COUNT", wb); }
 		if (st.spurious) res.faults["spurious-wakeup"] += st.spurious;
 		if (st.multiwake) res.faults["signal-wakes-two"] += st.multiwake;
 		if (st.starves) res.faults["thread-starved"] += st.starves;
 		if (st.delays) res.faults["thread-start-delayed"] += st.delays;
 		if (st.lock_contended) res.probes["mutex-contended"] += st.lock_contended;
-		if (st.routine_created[1] > 0 && st.routine_max_live[1] == (uint32_t)pool) res.probes["pool-saturated"]++;
+		if (pt.named && pt.workers_created > 0 && pt.worker_max == (uint32_t)pool) res.probes["pool-saturated"]++;
 		if (st.join_waited) res.probes["join-had-to-wait"] += st.join_waited;
 	}
 	if (wf != "none") {
